@@ -102,6 +102,7 @@ var (
 	errNetCanceled  = fmt.Errorf("harness: transport aborted: %w", context.Canceled)
 	errBoomDeadline = fmt.Errorf("harness: body read timeout: %w", context.DeadlineExceeded)
 	errBoomCanceled = fmt.Errorf("harness: body read aborted: %w", context.Canceled)
+	errBoomEOF      = fmt.Errorf("harness: connection reset by peer: %w", io.EOF)
 )
 
 func (a Attempt) netErr() error {
@@ -116,6 +117,8 @@ func (a Attempt) netErr() error {
 
 func (a Attempt) readErr() error {
 	switch a.ErrKind {
+	case "wraps-eof":
+		return errBoomEOF
 	case "deadline":
 		return errBoomDeadline
 	case "canceled":
